@@ -136,11 +136,16 @@ def coords_to_sln_lie_algebra(coord_vector, dtype=None,
     return _convert_matrix(gln_coords, like=coord_vector,
                            autoconvert=autoconvert)
 
-def linear_matrix_action(linear_map, n, **kwargs):
-    if "like" not in kwargs:
-        kwargs["like"] = linear_map
+def _linear_map_type(linear_map, n, **kwargs):
+    # the matrix of a linear map holds coordinates of images of the
+    # map, so unless a type is specified, it gets the type of an image
+    if not {"like", "dtype", "base_ring"}.isdisjoint(kwargs):
+        return utils.check_type(**kwargs)
 
-    base_ring, dtype = utils.check_type(**kwargs)
+    return utils.check_type(like=linear_map(utils.identity(n)))
+
+def linear_matrix_action(linear_map, n, **kwargs):
+    base_ring, dtype = _linear_map_type(linear_map, n, **kwargs)
     map_matrix = utils.zeros((n*n, n*n), base_ring, dtype)
 
     for i in range(n):
@@ -156,10 +161,7 @@ def linear_matrix_action(linear_map, n, **kwargs):
     return map_matrix
 
 def sln_linear_action(linear_map, n, **kwargs):
-    if "like" not in kwargs:
-        kwargs["like"] = linear_map
-
-    base_ring, dtype = utils.check_type(**kwargs)
+    base_ring, dtype = _linear_map_type(linear_map, n, **kwargs)
     map_matrix = utils.zeros((n**2 - 1, n**2 - 1), base_ring, dtype)
 
     for i in range(n):
